@@ -1,6 +1,6 @@
 from algo_prop import make
 ALGOS = ['DOO', 'SOO', 'SequOOL', 'StoSOO', 'StroquOOL', 'POO', 'GPO', 'PCT', 'VPCT']
-budget, explore, search, replay = make("C07", ALGOS, quick_per_algo=8, thorough_per_algo=100, salt=700)
+budget, explore, search, replay = make("C07", ALGOS, quick_per_algo=12, thorough_per_algo=100, salt=700)
 LEAN_EXTRA = ["PyXABProofs.Props.C07sweep", "PyXABProofs.Props.C07seq", "PyXABProofs.Props.C09", "PyXABProofs.Props.C10", "PyXABProofs.Props.StroquOOL"]
 RULE = ("the documented pull/receive loop on the real classes: algorithm x partition class (K 2..5) x dimension 1..3 x box shape x "
         "parameters from the documented ranges x ten reward modes (dyadic noise, all-negative, zero, constant, few-valued ties, "
